@@ -1,4 +1,5 @@
 import AgModel.Proofs.Seam
+import AgModel.Proofs.SeamStore
 import AgModel.Props.C13
 import AgModel.Props.C14
 /-!
@@ -163,5 +164,155 @@ theorem raw_honest_block_announced_iff (B : HBlock) (env : Env) (cenv : Nat → 
   have hb : r.2 = (runDissem cenv (SlotData.new cap B.slot) del).2 := congrArg (fun p => p.2) hsim
   rw [ha, hb]
   exact Blockstore.honest_block_announced_iff B cenv cap hwf del hhon
+
+/-! ### where `RawHonest` comes from: a correct leader, at the fine level -/
+
+/-- the coarse block `B` is the abstraction of what the leader `sk` produced for the slot with the regular shredder:
+    slice `i` is `sl i` (cipher key `key i`), and the abstraction of the leader's `j`-th shred of it is `B.shred i j`
+    (this fixes `B.root i` = the interned root of the leader's tree and `B.sz i` = the size class of its shards,
+    which are of one length) -/
+def AbstractsLeader (env : Env) (rid : RootId) (sk : Nat) (B : HBlock) (sl : Nat → Shred.Slice) (key : Nat → Bytes) : Prop :=
+  ∀ i j l, i < B.n → (Shred.leaderOut env .regular (sl i) sk (key i))[j]? = some l → absShred rid l = B.shred i j
+
+/-- symbolic signatures: the leader key signed, for this slot, only the commitments of its block's slices -/
+def LeaderSignedBlock (env : Env) (sk : Nat) (B : HBlock) (sl : Nat → Shred.Slice) (key : Nat → Bytes)
+    (s : Shred.Shred) : Prop :=
+  ∀ c, s.sig = .signed sk c → c.slot = B.slot →
+    ∃ i, i < B.n ∧ c = Shred.commit (sl i).header (Shred.leaderTree env .regular (sl i) (key i)).root
+
+/-- **`RawHonest` is a theorem about a correct leader**: if the leader key's signatures on the raw shreds are only
+    over the commitments of the leader's block (nothing assumed about payload, index, path, type, header, other
+    signatures - the shreds may be anything), then every raw shred that passes `try_new(_, None, leader)` abstracts
+    to the leader's shred at that slice and index up to the type. Uses C12 `accepted_is_leader_shred_partial`
+    (Merkle binding of payload and index, C15). -/
+theorem raw_honest_of_leader (env : Env) (L : env.Laws) (rid : RootId) (sk : Nat) (B : HBlock) (sl : Nat → Shred.Slice)
+    (key : Nat → Bytes) (habs : AbstractsLeader env rid sk B sl key) (ss : List Shred.Shred)
+    (hss : ∀ s ∈ ss, LeaderSignedBlock env sk B sl key s) : RawHonest env rid sk B ss := by
+  intro s hs cs hcs
+  unfold absIn at hcs
+  split at hcs
+  · cases hcs
+  · rename_i hslot
+    have hslot : s.header.slot = B.slot := Decidable.not_not.mp hslot
+    cases hv : validate env s none sk with
+    | error e => rw [hv] at hcs; cases hcs
+    | ok v =>
+      rw [hv] at hcs
+      simp only [Option.some.injEq] at hcs
+      obtain ⟨_, hsig, _, _⟩ := (Shred.accept_iff_signed env s sk none trivial v).mp hv
+      obtain ⟨i, hi, hc⟩ := hss s hs _ hsig hslot
+      rw [hc] at hsig
+      obtain ⟨hidx, l, hl, hsl, hx⟩ :=
+        Shred.accepted_is_leader_shred_partial env L .regular (sl i) sk (key i) s v none trivial hsig hv
+      obtain ⟨hroot, hli, _⟩ := Shred.leaderOut_get env .regular (sl i) sk (key i) s.index l hl
+      have hB := habs i s.index l hi hl
+      have hh : s.header = l.shred.header := by rw [hsl]
+      have hd : s.data = l.shred.data := by rw [hsl]
+      have hcs' : ({ cs with ty := true } : Blockstore.Shred) = B.shred i s.index := by
+        rw [← hB, ← hcs, hx]
+        simp only [absShred, hh, hd, hroot, hli, Blockstore.Shred.mk.injEq, true_and]
+        have := congrArg Blockstore.Shred.ty hB
+        simpa [absShred, HBlock.shred] using this
+      unfold HBlock.HonestUpToType HBlock.Honest
+      rw [hcs']
+      refine ⟨hi, ?_, rfl⟩
+      have : Blockstore.TOTAL_SHREDS = Pad.TOTAL := rfl
+      simp only [HBlock.shred]
+      rw [this]; exact hidx
+
+/-! ### repair (C14): `sigOk = true` of the responder model -/
+
+/-- a coarse shred that is the abstraction of a fine shred of the slot which `try_new(_, None, leader)` accepts -/
+def Backed (env : Env) (rid : RootId) (pk slot : Nat) (cs : Blockstore.Shred) : Prop :=
+  ∃ x : VShred, ServedOk env rid pk x cs ∧ x.shred.header.slot = slot
+
+/-- the link between the coarse decoding environment and the fine `Shredder::deshred` that is still assumed: when
+    the coarse model regenerates the missing shreds of a slice (its environment says the root decodes), the fine
+    `deshred` succeeds on the fine shreds held and its regenerated shreds are what the coarse `refill` abstracts.
+    The fine half is a theorem - C12 `reconstructed_shreds_validate`: after a successful fine `deshred` every shred
+    of the array, stored or regenerated, passes `try_new(_, None, leader)` -; what is not proved is that the coarse
+    `deshred` (an environment lookup) and the fine one (Reed-Solomon, Merkle re-check) succeed together. -/
+def RegenBacked (env : Env) (cenv : Nat → Content) (rid : RootId) (pk slot : Nat) : Prop :=
+  Blockstore.RegenKeeps cenv (Backed env rid pk slot)
+
+theorem handle_slot (env : Env) (cenv : Nat → Content) (rid : RootId) (pk : Nat) (n : FNode) (s : Shred.Shred) :
+    (n.handle env cenv rid pk s).1.slot = n.slot := by
+  unfold FNode.handle
+  split
+  · rfl
+  · split
+    · rfl
+    · rfl
+    · split <;> rfl
+
+/-- **Everything the node hands to the blockstore is backed** (connects C12 `node_cache_sound` /
+    `accepted_valid_without_cache` to the coarse deliveries): whatever `try_new` accepts with the node's cache - hit
+    or not - is a shred `try_new(_, None, leader)` accepts, and the blockstore is given its abstraction; with
+    `RegenBacked`, everything the slot holds stays backed. -/
+theorem handle_stored (env : Env) (cenv : Nat → Content) (rid : RootId) (pk : Nat) (n : FNode) (hI : Inv rid pk n)
+    (hr : RegenBacked env cenv rid pk n.slot) (s : Shred.Shred)
+    (h : Blockstore.SdStored (Backed env rid pk n.slot) n.abs) :
+    Blockstore.SdStored (Backed env rid pk n.slot) (n.handle env cenv rid pk s).1.abs := by
+  unfold FNode.handle
+  split
+  · exact h
+  · rename_i hslot
+    have hslot : s.header.slot = n.slot := Decidable.not_not.mp hslot
+    have hcs : CacheSound pk (n.cachedEntry s.header.sliceIdx) := by
+      cases hc : n.cachedEntry s.header.sliceIdx with
+      | none => trivial
+      | some e => exact hI.sound _ _ hc
+    split
+    · exact h
+    · exact Blockstore.flag_sdStored _ _ h
+    · rename_i v hv
+      split
+      · exact h
+      · apply Blockstore.addDissem_sdStored cenv _ hr n.sd _ h
+        have hvalid := Shred.accepted_valid_without_cache env s pk _ hcs v hv
+        obtain ⟨_, _, _, hx⟩ := (Shred.accept_iff_signed env s pk _ hcs v).mp hv
+        exact ⟨v, ⟨hvalid, rfl⟩, by rw [hx]; exact hslot⟩
+
+theorem run_stored (env : Env) (cenv : Nat → Content) (rid : RootId) (hinj : ∀ a b, rid a = rid b → a = b) (pk : Nat)
+    (n : FNode) (hI : Inv rid pk n) (hr : RegenBacked env cenv rid pk n.slot) (ss : List Shred.Shred)
+    (h : Blockstore.SdStored (Backed env rid pk n.slot) n.abs) :
+    Blockstore.SdStored (Backed env rid pk n.slot) (FNode.run env cenv rid pk n ss).1.abs := by
+  induction ss generalizing n with
+  | nil => exact h
+  | cons s rest ih =>
+    have hs := handle_slot env cenv rid pk n s
+    have h1 := handle_stored env cenv rid pk n hI hr s h
+    have hI1 := (handle_refines env cenv rid hinj pk n hI s).1
+    rw [← hs] at hr h1
+    have := ih _ hI1 hr h1
+    rw [hs] at this
+    exact this
+
+/-- **`sigOk = true` of the responder model is a theorem** (C14; `_partial`: under `RegenBacked`, see there).
+    A node that ingested ANY sequence of raw shreds through `handle_disseminator_shred` (from a fresh slot) answers
+    a repair request for a shred - `RepairRequestHandler::try_build_response`, model `Repair.answer`, which sets
+    `sigOk = true` - only with the abstraction of a fine shred of that slot which passes
+    `ValidatedShred::try_new(_, None, leader_pk)`: what the requester model's check `sigOk` stands for.
+    Full statement: the same without the hypothesis `hr`. Missing: coarse `deshred` succeeds only if the fine one
+    does, and `refill` is the abstraction of `fill_missing_shreds` (then `reconstructed_shreds_validate` gives `hr`).
+    On the pinned snapshot the conclusion was false already for stored shreds (`cache_skips_signature_old_witness`);
+    here the stored part is `handle_stored` (D34 `fix:`, `Inv.sound`). -/
+theorem served_sigOk_partial (env : Env) (cenv : Nat → Content) (rid : RootId) (hinj : ∀ a b, rid a = rid b → a = b)
+    (pk cap slot : Nat) (hr : RegenBacked env cenv rid pk slot) (ss : List Shred.Shred)
+    (b : Repair.Bid) (i j : Nat) (r : Repair.Req) (hslot : Nat) (cs : Blockstore.Shred) (ok : Bool)
+    (ha : Repair.answer (FNode.run env cenv rid pk (FNode.new cap slot) ss).1.abs (.shred b i j) = some (.shred r hslot cs ok)) :
+    ok = true ∧ ∃ x : VShred, ServedOk env rid pk x cs ∧ x.shred.header.slot = slot := by
+  have hst := run_stored env cenv rid hinj pk (FNode.new cap slot) (inv_new rid pk cap slot) hr ss
+    (Blockstore.sdStored_new _ cap slot)
+  unfold Repair.answer at ha
+  simp only at ha
+  cases hg : Blockstore.getShred (FNode.run env cenv rid pk (FNode.new cap slot) ss).1.abs b.hash i j with
+  | none => rw [hg] at ha; simp at ha
+  | some s =>
+    rw [hg] at ha
+    simp only [Option.some.injEq, Repair.Resp.shred.injEq] at ha
+    obtain ⟨_, _, h3, h4⟩ := ha
+    subst h3
+    exact ⟨h4.symm, Blockstore.getShred_stored _ _ hst b.hash i j s hg⟩
 
 end AgModel.Seam
